@@ -2,8 +2,9 @@
 
 use vcore::*;
 
-#[macro_use]
-pub mod hs;
+pub mod hs {
+    pub use vhash::*;
+}
 mod c15;
 mod c16;
 mod c17;
